@@ -116,7 +116,30 @@ class Signal(np.lib.mixins.NDArrayOperatorsMixin):
 
         out_arr = tuple((i.data if isinstance(i, Signal) else i) for i in out)
 
-        results = ufunc(*in_arr, out=out_arr, **kwargs)
+        if any(isinstance(o, dask.array.Array) for o in out_arr) and "where" not in kwargs:
+            # Dask would rebind an output array to the dtype of the result;
+            # like NumPy, cast into the dtype of the given output instead.
+            results = ufunc(*in_arr, **kwargs)
+            if results is NotImplemented:
+                return NotImplemented
+            pairs = zip((results,) if ufunc.nout == 1 else results, out_arr)
+            casting = kwargs.get("casting", "same_kind")
+            cast = []
+            for r, o in pairs:
+                if o is not None and not np.can_cast(r.dtype, o.dtype, casting):
+                    raise TypeError(
+                        f"Cannot cast ufunc '{ufunc.__name__}' output from {r.dtype!r} "
+                        f"to {o.dtype!r} with casting rule '{casting}'"
+                    )
+                if isinstance(o, dask.array.Array):
+                    r = dask.array.core.handle_out(o, dask.array.asarray(r).astype(o.dtype))
+                elif o is not None:
+                    o[...] = r
+                    r = o
+                cast.append(r)
+            results = cast[0] if ufunc.nout == 1 else tuple(cast)
+        else:
+            results = ufunc(*in_arr, out=out_arr, **kwargs)
 
         if results is NotImplemented:
             return NotImplemented
